@@ -19,7 +19,7 @@ QuickVals == <<
     <<"2", "32", "273">>,                                          \* nice_len
     <<"0", "1", "200">>,                                           \* depth
     <<"4096", "65536", "1048577">>,                                \* dict_size
-    <<FALSE, TRUE>>,                                               \* preset dictionary
+    <<"no", "small", "huge">>,                                     \* preset dictionary (huge: longer than the whole window)
     <<1, 0, 4, 10>>,                                               \* check
     <<"lzma2", "delta", "x86", "arm64delta">>,                     \* filter chain shape
     <<0, 4096, 50000>>,                                            \* MT block size (0 = default)
@@ -40,7 +40,7 @@ ThoroughVals == <<
     <<"2", "32", "273", "3", "4", "5", "128", "dflt">>,
     <<"0", "1", "200", "2", "1000", "dflt">>,
     <<"4096", "65536", "1048577", "4097", "98304", "2097152", "dflt">>,
-    <<FALSE, TRUE>>,
+    <<"no", "small", "huge">>,
     <<1, 0, 4, 10>>,
     <<"lzma2", "delta", "x86", "arm64delta">>,
     <<0, 4096, 50000, 1500, 1048576>>,
